@@ -147,19 +147,27 @@ DiffDisjoint(js) == \A i \in 1..Len(js) : \A p \in DiffPairs(js, i) : \E j \in 1
 ---------------------------------------------------------------------------
 (* bounded universes *)
 KA == <<97>>  KB == <<98>>  KN == <<110>>  KX == <<120>>  KY == <<121>>
+K0 == <<48>>  K1 == <<49>>  K10 == <<49, 48>>      \* DIGIT-NAMED keys "0" "1" "10": a dotted key a.0 names the entry "0" of a
+                                                   \* MAPPING a - never position 0 of a list stored under a by another job (At descends
+                                                   \* through mappings only)
 F1 == Flt(<<49, 46, 48>>, TRUE, 1)             \* 1.0
 F0 == Flt(<<48, 46, 48>>, TRUE, 0)             \* 0.0
 FH == Flt(<<48, 46, 53>>, FALSE, 0)            \* 0.5
 ValsA == {JInt(1), F1, JBool(TRUE), JStr(<<49>>), JNull, JInt(2),
           JList(<<JInt(1)>>), JList(<<F1>>),
-          JMap(KX :> JInt(1)), JMap(KX :> F1)}
+          JMap(KX :> JInt(1)), JMap(KX :> F1),
+          JMap(K0 :> JInt(1)), JMap(K0 :> JInt(2))}        \* next to the lists [1], [1.0] under the same key
 MkSP(f) == JMap([k \in {k \in DOMAIN f : f[k] # Abs} |-> f[k]])
 SmallSPs == {MkSP(KA :> va @@ KB :> vb) : va \in ValsA \cup {Abs}, vb \in {Abs, JInt(0)}}
 ValsA2 == ValsA \cup {JBool(FALSE), JInt(0), F0, FH, JStr(<<228, 32, 98>>), JList(<<>>), JList(<<JInt(1), JInt(2)>>),
-                      JList(<<JBool(TRUE)>>), JMap(KX :> JBool(TRUE) @@ KY :> JNull)}
+                      JList(<<JBool(TRUE)>>), JMap(KX :> JBool(TRUE) @@ KY :> JNull),
+                      JMap(K0 :> JInt(1) @@ K1 :> JInt(2)), JMap(K10 :> JInt(1)), JList(<<JInt(5), JInt(6)>>),
+                      JList(<<JList(<<JInt(5), JInt(6)>>)>>), JMap(K0 :> JMap(K1 :> JInt(6)))}     \* nested list vs a.0.1
 ValsN  == {Abs, JInt(1), JMap(KX :> JInt(1)), JMap(KX :> JInt(1) @@ KY :> JList(<<JInt(1), JInt(2)>>)),
            JMap(KX :> JBool(TRUE) @@ KY :> JMap(KA :> JStr(<<49>>)))}
-BigSPs == {MkSP(KA :> va @@ KB :> vb @@ KN :> vn) : va \in ValsA2 \cup {Abs}, vb \in {Abs, JInt(0), JBool(FALSE), F0}, vn \in ValsN}
+Vals0  == {Abs, Abs, JInt(7), JList(<<JInt(1), JInt(2)>>), JMap(K1 :> JInt(2))}      \* a TOP-LEVEL key called "0"
+BigSPs == {MkSP(KA :> va @@ KB :> vb @@ KN :> vn @@ K0 :> v0) : va \in ValsA2 \cup {Abs}, vb \in {Abs, JInt(0), JBool(FALSE), F0},
+                                                                vn \in ValsN, v0 \in Vals0}
 
 Exhaustive == UNION {kSubset(n, SmallSPs) : n \in 0..MAXJOBS}
 RandomCorpora == {RandomSubset(1 + (i % RANDMAX), BigSPs) : i \in 1..NRANDOM}
